@@ -47,6 +47,7 @@ def cases(tier, seed):
         out.append(f"{s}/pair")
     # documents listing the balance points in reversed order (the kernel/fix_full_model_x reorder them)
     out += ["hdd_tidd_cdd/singlerev", "hdd_tidd_cdd_smooth/singlerev"]
+    out += [f"legacy20/{k}" for k in L20_KINDS]  # models read from legacy (2.0) documents
     if tier == "thorough":
         out.append("hdd_tidd_cdd_smooth/pairexact")  # the real get_smooth_coeffs inside the pair run (no contract)
     return out
@@ -194,6 +195,23 @@ def _float_order_search(vals, tries=4000):
         PH = round(abs(ph + rnd.uniform(-0.3, 0.3)), 3)
         PC = round(abs(pc_ + rnd.uniform(-0.3, 0.3)), 3)
         cands.append((A, PH, B, PC))
+    # the order can only flip where the two shifts nearly meet: smoothing fractions whose float sum is within a few ulp of 1
+    # (both sides of 1), on a grid of balance points around the witness and over the usual range
+    import math
+    grid = [(round(a + i * 0.5, 3), round(max(a, b) + j * 0.5, 3)) for i in range(-3, 4) for j in range(0, 8)] + \
+           [(30.0 + i * 0.5, 48.0 + j * 0.5) for i in range(0, 5) for j in range(0, 45)]
+    for PH in (0.9, 0.7, 0.6, 0.3, 0.1, 1.0, 0.0):
+        pc0 = 1.0 - PH
+        near = [pc0]
+        for _ in range(8):
+            near.append(math.nextafter(near[-1], 0.0))
+        up = pc0
+        for _ in range(2):
+            up = math.nextafter(up, 2.0)
+            near.append(up)
+        for PC in near:
+            for (A, B) in grid:
+                cands.append((A, PH, B, PC))
     for (A, PH, B, PC) in cands:
         if A > B or PH < 0 or PC < 0:
             continue
@@ -247,12 +265,102 @@ def run_rounding(case: Case):
     case.note("rounding-error model: fl(a op b) = (a op b)(1+e), |e| <= 2^-53, one fresh e per arithmetic result")
 
 
+# ------------------------------------------------------------------ legacy (2.0) documents
+
+L20_KINDS = {"intercept_only": (), "hdd_only": ("h",), "cdd_only": ("c",), "cdd_hdd": ("h", "c")}
+
+
+def _l20_doc(kind, v):
+    mp = {"intercept": v["intercept"]}
+    if "h" in L20_KINDS[kind]:
+        mp.update(beta_hdd=v["beta_hdd"], heating_balance_point=v["bp_h"])
+    if "c" in L20_KINDS[kind]:
+        mp.update(beta_cdd=v["beta_cdd"], cooling_balance_point=v["bp_c"])
+    return {"model_type": kind, "model_params": mp}
+
+
+def _l20_formula(kind, v, T, mx):
+    out = v["intercept"]
+    if "h" in L20_KINDS[kind]:
+        out = out + v["beta_hdd"] * mx(v["bp_h"] - T, 0)
+    if "c" in L20_KINDS[kind]:
+        out = out + v["beta_cdd"] * mx(T - v["bp_c"], 0)
+    return out
+
+
+def replay_legacy20(inp):
+    import numpy as np
+    import opendsm.eemeter.models.daily.model as dm
+    v = {k: float(x) for k, x in inp["vals"].items()}
+    for k in ("intercept", "beta_hdd", "beta_cdd", "bp_h", "bp_c", "T0"):
+        v.setdefault(k, 0.0)
+    m = dm.DailyModel.from_2_0_dict(_l20_doc(inp["kind"], v))
+    sub = m.params.submodels["fw-su_sh_wi"]
+    got = float(m._predict_submodel(sub, np.array([v["T0"]], dtype=float))[0][0])
+    want = _l20_formula(inp["kind"], v, v["T0"], max)
+    return abs(got - want) > 1e-9 * max(1.0, abs(want)), f"model read from the 2.0 document {_l20_doc(inp['kind'], v)} predicts {got} at T={v['T0']}; the CalTRACK 2.0 formula gives {want}"
+
+
+REPLAY["legacy20"] = replay_legacy20
+
+
+def run_legacy20(case: Case, kind):
+    """a model read from a legacy (2.0) document is the 2.0 curve: intercept + beta_hdd*max(bp_h - T, 0) + beta_cdd*max(T - bp_c, 0)
+    for every temperature (the conversion's placeholder limits must not bend it)"""
+    import opendsm.eemeter.models.daily.model as dm
+    import opendsm.eemeter.models.daily.parameters as pm
+    from symv.carriers import patched, symarr
+    from symv.proxies import SReal
+    V = {k: Z(k) for k in ("intercept", "beta_hdd", "beta_cdd", "bp_h", "bp_c", "T0")}
+    case.inputs = list(V.values())
+    RealC, RealS = pm.ModelCoefficients, pm.DailySubmodelParameters
+
+    class TwinC:  # permissive constructors standing in for the validated pydantic models
+        def __new__(cls, **kw):
+            return RealC.model_construct(**kw)
+
+    class TwinS:
+        def __new__(cls, **kw):
+            return RealS.model_construct(**kw)
+
+    def run():
+        eng = E.cur()
+        for c in [V["beta_hdd"] > 0, V["beta_cdd"] > 0, V["bp_h"] > -100, V["bp_c"] < 200, V["bp_h"] <= V["bp_c"]]:
+            eng.assume(c)
+        vals = {k: SReal(x) for k, x in V.items()}
+        with patched(pm, ModelCoefficients=TwinC, DailySubmodelParameters=TwinS):
+            params = pm.DailyModelParameters.from_2_0_params.__func__(_Shell, _l20_doc(kind, vals))
+        m = object.__new__(dm.DailyModel)
+        model, unc, hl, cl = m._predict_submodel(params["submodels"]["fw-su_sh_wi"], symarr([vals["T0"]]))
+        return model[0]
+
+    with R.symbolic_daily():
+        paths = case.explore(run)
+    for p in paths:
+        rp = ("legacy20", lambda mdl: dict(kind=kind, vals=model_env(mdl, case.inputs)))
+        if p.outcome != "ret":
+            case.prove(p, False, "no exception", replay=rp)
+            continue
+        case.twin(p)
+        got = lift(p.value) if not isinstance(p.value, (int, float)) else z3.RealVal(p.value)
+        got = z3.ToReal(got) if z3.is_int(got) else got
+        case.prove(p, got == _l20_formula(kind, V, V["T0"], zmax), "a model read from a 2.0 document predicts the 2.0 formula at every temperature", replay=rp)
+    case.note("pydantic validation of the converted coefficients replaced by model_construct twins; the parameters object is a dict shell")
+
+
+def _Shell(**kw):
+    """stands in for the DailyModelParameters constructor (pydantic): hands the keyword arguments back"""
+    return kw
+
+
 def run_case(case: Case, name: str):
     shape, mode = name.split("/")
     if mode == "lemma":
         return run_lemma(case)
     if mode == "rounding":
         return run_rounding(case)
+    if shape == "legacy20":
+        return run_legacy20(case, mode)
     exact = mode == "pairexact"
     if exact:
         mode = "pair"
